@@ -69,7 +69,8 @@ def infer_redirection_step(url):
         if obvious_redirect_match is not None:
             # NOTE: the pattern is case-insensitive, so must be this test
             if obvious_redirect_match.group(1).lower() == "q":
-                if "/url?q=" not in url and "/redirect" not in url:
+                # NOTE: q is not necessarily the first item of the query
+                if "/url?" not in url and "/redirect" not in url:
                     return None
 
             potential_target = unquote(obvious_redirect_match.group(2))
